@@ -239,18 +239,18 @@ def server(R):
              sorted(lits), [m.text() for m in st]), func=f, node=y.ast)
 
 
-def client(R):
+def client(R, RID='C08.client'):
     q = WS + '._on_close'
     g = R.cfg(q)
     ycd = [y for y in g.yields() if 'inst:events.Closed' in R.types.expr(y.ast.value, g.ctx)]
     need(len(ycd) == 1, '_on_close: Closed yield not found')
     lits = {(t, p) for (t, p, _) in guards_of(g, ycd[0])}
-    R.ob('C08.client', 'Closed when the client had closed first', ('self.is_closing', True) in lits, 'Closed under %s' % sorted(lits),
+    R.ob(RID, 'Closed when the client had closed first', ('self.is_closing', True) in lits, 'Closed under %s' % sorted(lits),
          func=q, node=ycd[0].ast)
     st = [m for m in g.live_nodes() if m.kind == 'stmt' and isinstance(m.ast, ast.Assign) and U(m.ast.targets[0]) == 'self.state.closed'
           and U(m.ast.value) == 'True']
     ok = bool(st) and all_paths_pass(g, normal_succs(ycd[0]), st, [g.exit], skip_edge=nx)
-    R.ob('C08.client', 'closed=True follows Closed on every path', ok, 'after Closed the state may not become closed', func=q,
+    R.ob(RID, 'closed=True follows Closed on every path', ok, 'after Closed the state may not become closed', func=q,
          node=ycd[0].ast)
     qr = S + '.run'
     gr = R.cfg(qr)
@@ -262,7 +262,7 @@ def client(R):
             a = arg_of(v, init, 'graceful')
             if a is not None and fold(R, a, gr.ctx) is True:
                 graceful.append(y)
-    R.ob('C08.client', 'single graceful Disconnected', len(graceful) == 1, '%d graceful Disconnected yields' % len(graceful),
+    R.ob(RID, 'single graceful Disconnected', len(graceful) == 1, '%d graceful Disconnected yields' % len(graceful),
          func=qr, node=(graceful[0].ast if graceful else None), construct='graceful Disconnected sites')
     if graceful:
         y = graceful[0]
@@ -274,14 +274,14 @@ def client(R):
                                       skip_edge=None) or True
         viaexc = gr.reachable([h for n in gr.live_nodes() if n.kind == 'handler' for h in [n]])
         ok = not inh and y not in viaexc and any(all_paths_pass(gr, normal_succs(h), cs, [y], skip_edge=nx) for h in heads)
-        R.ob('C08.client', 'graceful Disconnected is the normal-loop-exit path, after closing the socket', ok,
+        R.ob(RID, 'graceful Disconnected is the normal-loop-exit path, after closing the socket', ok,
              'graceful Disconnected reachable from an exception handler or without _close_socket()', func=qr, node=y.ast)
     conds = [m for h in gr.live_nodes() if h.kind == 'loophead' for m in normal_succs(h) if m.kind == 'test']
-    R.ob('C08.client', 'loop exits when closed', any(U(c.ast).endswith('is_closed') for c in conds),
+    R.ob(RID, 'loop exits when closed', any(U(c.ast).endswith('is_closed') for c in conds),
          'loop condition %s' % [U(c.ast) for c in conds], func=qr, node=None, construct='run loop condition')
 
 
-def eof(R):
+def eof(R, RID='C08.eof'):
     q = S + '.run'
     g = R.cfg(q)
     rd = ReachingDefs(g)
@@ -295,7 +295,7 @@ def eof(R):
         lits = {(tx, p) for (tx, p, _) in guards_of(g, n)}
         if ('websocket.is_active', True) in lits or ('self.websocket.is_active', True) in lits:
             ok = True
-    R.ob('C08.eof', 'EOF while active fails the connection', ok, 'no `connection lost` failure under is_active on the empty-read arm',
+    R.ob(RID, 'EOF while active fails the connection', ok, 'no `connection lost` failure under is_active on the empty-read arm',
          func=q, node=t.ast, construct='EOF active arm')
     # EOF while not active: reaches the graceful yield without passing a failure
     brk = [n for n in g.reachable(succs(t, 'false'), skip_edge=nx) if n.kind == 'stmt' and isinstance(n.ast, ast.Break)]
@@ -305,7 +305,7 @@ def eof(R):
     act = [x for x in g.live_nodes() if x.kind == 'test' and U(x.ast).endswith('is_active')
            and x in g.reachable(succs(t, 'false'), skip_edge=nx)]
     okb = okb and bool(act) and all(any(b in g.reachable(succs(a, 'false'), skip_edge=nx) for b in brk) for a in act)
-    R.ob('C08.eof', 'EOF while closing/closed ends gracefully', okb, 'the empty-read arm does not break out of the loop when the '
+    R.ob(RID, 'EOF while closing/closed ends gracefully', okb, 'the empty-read arm does not break out of the loop when the '
          'websocket is not active', func=q, node=t.ast, construct='EOF inactive arm')
 
 
